@@ -54,7 +54,7 @@ MANIFEST = {
     "design_ref": "5/C14",
 }
 MODULES = ["PrimaiteModel.Lemmas.HealthEff", "PrimaiteModel.Props.C14", "PrimaiteModel.Props.C14Gen", "PrimaiteModel.Props.C14Dyn",
-           "PrimaiteModel.Props.C14Inv", "PrimaiteModel.Props.C14Life"]
+           "PrimaiteModel.Props.C14Inv", "PrimaiteModel.Props.C14Life", "PrimaiteModel.Props.C14Obs"]
 EXE = "drv_c14"
 
 
@@ -67,6 +67,7 @@ def _tokens(line: str) -> List[Tuple[str, str]]:
     out = [("resp", resp)]
     try:
         dump, view = dump.split(" V=", 1)
+        view, _, obs = view.partition(" O=")
         p, rest = dump.split(" S=", 1)
         s, f = rest.split(" F=", 1)
     except ValueError:
@@ -80,7 +81,8 @@ def _tokens(line: str) -> List[Tuple[str, str]]:
     for item in f.split():
         head, _, files = item.partition("[")
         parts = head.split(":")
-        for name, tok in zip(("folder-name", "folder-deleted", "folder-actual", "folder-visible", "folder-scanCd", "folder-restoreCd"), parts):
+        for name, tok in zip(("folder-name", "folder-deleted", "folder-actual", "folder-visible", "folder-scanCd", "folder-restoreCd",
+                              "folder-scanned-this-step"), parts):
             out.append((name, parts[0] + "=" + tok))
         for fi in files.rstrip("]").split(","):
             if not fi:
@@ -92,6 +94,10 @@ def _tokens(line: str) -> List[Tuple[str, str]]:
     vsw, _, vfs = view.partition(";")
     out.append(("view-software", vsw))
     out.append(("view-file-system", vfs))
+    # what each FolderObservation reported at the last timestep / has cached
+    for item in obs.split(","):
+        if item:
+            out.append(("folder-observation", item))
     return out
 
 
@@ -245,6 +251,9 @@ def run(ctx: Ctx):
     # deleted items of one name in every deletion order, then a restore by name (enumerated)
     for k, c in enumerate(rig.twin_restore_cases()):
         cases.append((f"twin:{k}", c))
+    # the order of a game step (pre_timestep; requests; apply_timestep; observe): refresh flag and FolderObservation (enumerated)
+    for k, c in enumerate(rig.game_order_cases(ctx.rng.fork("game-order"), depth=ctx.scale(2, 3), nrandom=ctx.scale(200, 1500))):
+        cases.append((f"gord:{k}", c))
     # the fix of a database service whose completion restores the backup inside a timestep (enumerated)
     for k, c in enumerate(rig.db_fix_cases(durs=ctx.scale((0, 1, 3), (0, 1, 2, 3, 5)))):
         cases.append((f"dbfix:{k}", c))
